@@ -16,6 +16,9 @@
    The scheduler hop of completion_forwarder is the step MHop: with [hs = true] (the tree as it is)
    the hop sees the FINAL receiver's stop token and completes with done when it is stopped; with
    [hs = false] (forwarder receiver answers get_stop_token with unstoppable_token) it never does.
+   Not modelled: destruction of an operation state by its receiver (the model keeps every op alive;
+   the driver's "destroy" mode checks that on the real code directly).  The field [taken] is a ghost
+   (written at the claiming CAS, never read by [step]).
    Executable definitions only. *)
 From Coq Require Import List Bool Arith.
 Import ListNotations.
